@@ -11,11 +11,15 @@ Oracle: refstar() - breadth-first enumeration with an identity-keyed visited set
 Termination is decided without a clock: every container of the generated graph is a recording
 subclass sharing one access log with a budget; exceeding it raises a BaseException.
 """
+import os
+
 from hypothesis import strategies as st
 
 import glom
 from glom import Path, T, GlomError, PathAccessError, Assign, Delete
 
+from .. import boot
+from .. import fuzzrun
 from ..runner import Sub, Mismatch
 from .. import targets as tg
 
@@ -437,4 +441,6 @@ SUBS = [
         floors={'shared-or-cyclic': 0.2, 'starstar': 0.2, 'wild-2': 0.1, 'exp-ok': 0.5}),
     Sub('mutate', check_mutate, gen=gen_mutate, quick=2500, thorough=8000,
         floors={'wild-2': 0.1, 'wild-3': 0.1, 'exp-ok': 0.3}),
+    fuzzrun.fuzz_sub('fuzz-path-text', 'c01-path-text', runs=20000, campaigns=4,
+                     corpus=os.path.join(boot.VERIF, 'fuzz', 'corpus', 'c01-path-text'), replay_sub='read'),
 ]
